@@ -1,0 +1,22 @@
+//go:build verif
+
+package dhcp
+
+// Verification hook for property C09. Wrapper only (-tags verif).
+
+import "github.com/insomniacslk/dhcp/dhcpv4"
+
+// VerifC09ParseOption82 runs parseOption82 on a request whose option 82 holds exactly raw.
+// present is false when parseOption82 returned nil.
+func VerifC09ParseOption82(raw []byte) (circuitID, remoteID []byte, present bool) {
+	req, err := dhcpv4.New()
+	if err != nil {
+		panic(err)
+	}
+	req.Options[uint8(dhcpv4.OptionRelayAgentInformation)] = raw
+	info := parseOption82(req)
+	if info == nil {
+		return nil, nil, false
+	}
+	return info.CircuitID, info.RemoteID, true
+}
